@@ -51,7 +51,7 @@ Fixpoint s1_stmt (x : stmt) : bool :=
   | SWith _ items b => forallb s1_with_item items && blk b
   | STry _ b hs o f => blk b && is_nil hs && blk o && blk f
   | SPass _ => true
-  | SAllAssign _ _ | SDef _ _ _ _ _ _ | SClass _ _ _ _ _ _ => false
+  | SAllAssign _ _ | SDef _ _ _ _ _ _ | SClass _ _ _ _ _ _ | SDoc _ _ _ => false
   end.
 Definition s1_block (l : list stmt) : bool := forallb s1_stmt l.
 
@@ -89,7 +89,7 @@ Fixpoint u1_stmt (x : stmt) : bool :=
   | SWith _ items b => forallb s1_with_item items && blk b
   | STry _ b hs o f => blk b && is_nil hs && blk o && blk f
   | SPass _ => true
-  | SAllAssign _ _ | SDef _ _ _ _ _ _ | SClass _ _ _ _ _ _ => false
+  | SAllAssign _ _ | SDef _ _ _ _ _ _ | SClass _ _ _ _ _ _ | SDoc _ _ _ => false
   end.
 Definition u1_block (l : list stmt) : bool := forallb u1_stmt l.
 
